@@ -19,14 +19,17 @@ EstSplit(off) == LET A == DocTransformL(Dense, GE, 2)  B == DocTransformL(Dense,
                  Shift([Dense EXCEPT !.poses = [k \in 1..9 |-> IF k <= 5 THEN A.poses[k] ELSE B.poses[k]]], -off)
 Modes == <<"none", "sim", "scale", "origin", "scaleorigin">>
 Init == \E tool \in {"ape", "rpe"}, down \in {0, 5, 3}, lo \in {-1000, 2}, hi \in {1000, 6}, off \in {0, 3}, mi \in 1..5, nal \in {0, 3},
-           split \in BOOLEAN, head \in BOOLEAN, pi \in 1..3, rel \in {"trans", "deg", "full", "rotpart", "pdist"}, delta \in {1, 2, 3, 5, 9}, allp \in BOOLEAN, fmt \in {"tum", "euroc"},
-           dunit \in {"f", "m"}, fromref \in BOOLEAN, cu \in BOOLEAN, walk \in BOOLEAN :
-          LET x == [tool |-> tool, ref |-> IF walk THEN Walk ELSE IF head THEN RefHead ELSE RefT,
+           split \in BOOLEAN, head \in BOOLEAN, pi \in 1..3, rel \in {"trans", "deg", "full", "rotpart", "pdist"}, delta \in {1, 2, 3, 5, 9, 85, 100, 120, 170}, allp \in BOOLEAN, fmt \in {"tum", "euroc", "kitti"},
+           dunit \in {"f", "m", "d", "r"}, fromref \in BOOLEAN, cu \in BOOLEAN, walk \in BOOLEAN :
+          LET x == [tool |-> tool, ref |-> IF walk THEN Walk ELSE IF fmt = "kitti" THEN Dense ELSE IF head THEN RefHead ELSE RefT,
                     est |-> IF walk THEN Shift(DocTransformL(Walk, GE, 1), -off) ELSE IF split THEN EstSplit(off) ELSE EstT(off), fmt |-> fmt,
                     q |-> [down |-> down, mf |-> IF walk THEN 10005 ELSE 0, lo |-> lo, hi |-> hi, md |-> 0, off |-> off, mode |-> Modes[mi], nalign |-> nal,
                            plane |-> <<"none", "xy", "yz">>[pi], rel |-> rel, delta |-> delta, allpairs |-> allp,
                            dunit |-> dunit, fromref |-> fromref, cu |-> cu]] IN
           /\ (walk => down = 0 /\ lo = -1000 /\ hi = 1000 /\ mi \in {1, 4} /\ nal = 0 /\ ~head /\ dunit = "f" /\ ~cu /\ pi = 1 /\ rel # "pdist")
+          /\ (fmt = "kitti" => off = 0 /\ lo = -1000 /\ hi = 1000 /\ ~head /\ ~walk /\ pi = 1)          \* no stamps: equally long files, pose k with pose k
+          /\ (dunit \in {"d", "r"} => delta \in (IF allp THEN {85, 120} ELSE {100, 170}) /\ pi = 1 /\ down = 0 /\ ~split /\ ~cu /\ ~walk /\ rel \in {"trans", "deg"}
+                                      /\ (allp => ~fromref))
           /\ (tool = "ape" => delta = 1 /\ ~allp /\ dunit = "f" /\ ~fromref)
           /\ (dunit = "f" => delta \in {1, 2} /\ ~fromref)
           /\ (dunit = "m" => delta \in {3, 5, 9} /\ ~allp /\ pi = 1 /\ rel = "trans" /\ down = 0 /\ ~split)
@@ -40,7 +43,7 @@ Init == \E tool \in {"ape", "rpe"}, down \in {0, 5, 3}, lo \in {-1000, 2}, hi \i
           /\ (down + lo + hi + 3 * off + 5 * mi + 7 * nal + 11 * pi + 13 * delta + (IF allp THEN 17 ELSE 0) + (IF tool = "ape" THEN 19 ELSE 0)
               + (IF fmt = "tum" THEN 23 ELSE 0) + (IF rel = "trans" THEN 29 ELSE IF rel = "deg" THEN 31 ELSE 37) + (IF head THEN 41 ELSE 0)
                  + (IF dunit = "m" THEN 43 ELSE 0) + (IF fromref THEN 47 ELSE 0) + (IF cu THEN 53 ELSE 0))
-             % (IF walk THEN 2 ELSE IF (nal # 0 \/ (cu /\ mi = 1) \/ dunit = "m") /\ SampleK > 5 THEN 5 ELSE SampleK) = 0
+             % (IF walk THEN 2 ELSE IF (nal # 0 \/ (cu /\ mi = 1) \/ dunit \in {"m", "d", "r"}) /\ SampleK > 5 THEN 5 ELSE SampleK) = 0
           /\ c = x
 Next == UNCHANGED c
 Spec == Init /\ [][Next]_c
@@ -53,6 +56,7 @@ Judgeable(x) == /\ DownExact(x.ref, x.q.down) /\ DownExact(x.est, x.q.down)
                 /\ (x.q.dunit = "m" => IntegerSteps(FinalRef(x)) /\ IntegerSteps(FinalEst(x))
                                         /\ LET drv == DrvOf(IF x.q.fromref THEN FinalRef(x) ELSE FinalEst(x)) IN
                                            FirstReach(drv, x.q.delta) >= 0 /\ Len(ChainFrom(drv, x.q.delta, FirstReach(drv, x.q.delta))) > 0)
+                /\ (x.q.dunit \in {"d", "r"} => NoFree(FinalRef(x)) /\ NoFree(FinalEst(x)) /\ Len(AnglePairs(x)) > 0)
                 /\ (x.q.rel = "pdist" => IntegerSteps(FinalRef(x)) /\ IntegerSteps(FinalEst(x)))
 EmitCases == (Emit /\ Judgeable(c)) => PrintT(ToJson(c))
 ==============================================================================
